@@ -10,7 +10,8 @@ rm -rf "$d"; mkdir -p "$d"
 rsync -a --exclude /target /repo/ "$d/"
 ( cd "$d" && git apply /verif/seeded/$seed/patch.diff ) || { echo "$seed: patch does not apply"; rm -rf "$d"; exit 3; }
 log=/var/tmp/yv/seed-$seed.log
-VERIF_REPO="$d" /verif/check "$prop" "$@" > "$log" 2>&1
+mkdir -p /var/tmp/yv/seed-evidence
+VERIF_EVIDENCE_DIR=/var/tmp/yv/seed-evidence VERIF_REPO="$d" /verif/check "$prop" "$@" > "$log" 2>&1
 rc=$?
 rm -rf "$d"
 echo "$(date +%H:%M:%S) seed=$seed property=$prop exit=$rc $(grep -c '^VIOLATION' $log) violation line(s); $(grep -m1 '^VIOLATION\|^INCONCLUSIVE\|^OK' $log | cut -c1-200)" | tee -a /var/tmp/yv/seedtest.log
